@@ -538,6 +538,36 @@ def run(lines, out, args):
                         got = "FAIL: a complete %s ran while changed() was reading the base generations (read #%d), then the base was changed; later calls keep answering %r, the base holds %r" % (ep, skip + 1, later, new)
                     if got != "ok":
                         break
+            elif scen == "provleak":
+                # an object whose `__provides__` is not a specification (any other value under that name; a class that has no
+                # declarations, so that the attribute is what the lookup consults first): the lookup falls back to the class, and the
+                # value it looked at is released again
+                Reg = A.VerifyingAdapterRegistry if flavour == "verifying" else A.AdapterRegistry
+                reg = Reg()
+                reg.register((Interface,), IP, "", fac1)
+
+                class NotASpec:
+                    pass
+                marker = NotASpec()
+
+                def once():
+                    # (a fresh class every time: the path is the one taken for an instance of a class that has no specification yet)
+                    oddball = type("Oddball", (), {})()
+                    oddball.__provides__ = marker
+                    if ep == "queryAdapter":
+                        return reg.queryAdapter(oddball, IP, "")
+                    if ep == "adapter_hook":
+                        return reg.adapter_hook(IP, oddball, "")
+                    if ep == "queryMultiAdapter":
+                        return reg.queryMultiAdapter((oddball,), IP, "")
+                    return providedBy(oddball)
+                once()
+                before = sys.getrefcount(marker)
+                for _ in range(100):
+                    once()
+                after = sys.getrefcount(marker)
+                if after - before >= 50:
+                    got = "FAIL: 100 calls of %s on an object whose __provides__ is not a specification left %d references to that value behind" % (ep, after - before)
             elif scen == "delleak":
                 # the destructor re-entry of `delhook`, repeated: every round a cached factory dies inside the cache invalidation and its
                 # destructor performs a lookup (for a generation-checking registry: a complete nested changed()).  Nothing may be left
